@@ -215,6 +215,7 @@ func checkC04(c *run.Ctx) {
 			Str:           gen.StringOpts{},
 			Refs:          refs,
 			UniqueStrings: true,
+			Coincide:      true,
 			BlockNames:    []string{"BLK1", "BLK2", "X", "Y"},
 			Unknown:       i%3 == 0,
 			Signature:     true,
@@ -410,6 +411,14 @@ func checkC04(c *run.Ctx) {
 				v, d := build(0)
 				unk.Contents = v
 				slots = append(slots, slot{"unknown step contents", func() any { return unk.Contents }, d})
+			}
+			{
+				// a cache built in code: whatever its flags say, its strings are strings of the pipeline
+				cn, cs, cp1, cp2, ck, cv := str(), str(), str(), str(), str(), str()
+				step.Cache = &pipeline.Cache{Disabled: i%2 == 0, Name: cn, Size: cs, Paths: []string{cp1, cp2}, RemainingFields: map[string]any{ck: cv}}
+				slots = append(slots, slot{"cache (disabled flag set in half of the cases)", func() any {
+					return map[string]any{"name": step.Cache.Name, "size": step.Cache.Size, "paths": step.Cache.Paths, "rest": step.Cache.RemainingFields}
+				}, doc.M(doc.P("name", doc.S(cn)), doc.P("paths", doc.L(doc.S(cp1), doc.S(cp2))), doc.P("rest", doc.M(doc.P(ck, doc.S(cv)))), doc.P("size", doc.S(cs)))})
 			}
 			plugCfg, plugDoc := build(0)
 			step.Plugins = pipeline.Plugins{{Source: "p#v1", Config: plugCfg}}
